@@ -26,4 +26,18 @@ structure OptRow where
   guard : GExpr       -- over "v"; `ok` already replaced by tt
 deriving Repr, DecidableEq
 
+/-- a blocking API call site (SendMsg / RecvMsg of a protocol socket or context), as read from the source -/
+structure WaitSite where
+  pkg : String
+  recv : String
+  fn : String
+  timer : String          -- "none" | "once" | "loop" (created inside the retry loop) | "once-func" | "loop-func" (time.AfterFunc)
+  timerGuard : GExpr      -- over "expire": when the deadline timer is armed
+  timerArg : String       -- "expire" when the timer's duration is the deadline option
+  bestEffort : String     -- "closedQ": best-effort replaces the timer channel by the always-ready one; "none"
+  failNoPeers : GExpr     -- guard of the early ErrNoPeers return, over "failNoPeers", "npipes" (ff = none)
+  cases : List (String × String)  -- (communication, what the case does) of every select in the function
+  condWaits : List String -- loop conditions of condition-variable waits
+deriving Repr, DecidableEq
+
 end Model
